@@ -26,7 +26,8 @@ type verifC16Cfg struct {
 	userVars                bool
 }
 
-var verifC16Fields = []string{"command", "working_dir", "log_location", "description", "readiness.exec.command", "liveness.http.path", "liveness.http.host", "readiness.http.port"}
+var verifC16Fields = []string{"command", "working_dir", "log_location", "description", "readiness.exec.command", "liveness.http.path", "liveness.http.host", "readiness.http.port",
+	"exec.probe.inherits.working_dir", "readiness.exec.working_dir"}
 
 const verifTpl = "x{{.PC_REPLICA_NUM}}-{{.V}}"
 
@@ -55,6 +56,12 @@ func verifC16Project(c verifC16Cfg) *types.Project {
 		p.LivenessProbe = &health.Probe{HttpGet: &health.HttpProbe{Host: verifTpl, Port: "80"}}
 	case "readiness.http.port":
 		p.ReadinessProbe = &health.Probe{HttpGet: &health.HttpProbe{Host: "h", Port: "80{{.PC_REPLICA_NUM}}"}}
+	case "exec.probe.inherits.working_dir":
+		// an exec probe without a working directory of its own runs in the process's one
+		p.WorkingDir = verifTpl
+		p.ReadinessProbe = &health.Probe{Exec: &health.ExecProbe{Command: "check"}}
+	case "readiness.exec.working_dir":
+		p.ReadinessProbe = &health.Probe{Exec: &health.ExecProbe{Command: "check", WorkingDir: verifTpl}}
 	}
 	// a second process that defines no local variable: it must see the global value and its
 	// own replica number, whatever the first process defines
@@ -80,6 +87,8 @@ func verifC16Field(pc types.ProcessConfig, field int) string {
 		return pc.LivenessProbe.HttpGet.Host
 	case "readiness.http.port":
 		return pc.ReadinessProbe.HttpGet.Port
+	case "exec.probe.inherits.working_dir", "readiness.exec.working_dir":
+		return pc.ReadinessProbe.Exec.WorkingDir
 	}
 	return ""
 }
